@@ -23,7 +23,7 @@ WORKERS = {"quick": 4, "thorough": 16}
 CONTEXTS = ["bare", "params", "photos", "photos+params", "wrapped", "extended-daughters", "extended-params", "space-before-semicolon"]
 REQUIRED = {**{f"context:{c}": 135 for c in CONTEXTS}, "published-name-in-all-contexts": 1, "prefix-pairs-all": 1, "published-after-user-registration": 135,
             "user-name": 200, "user-name:special-char:.": 3, "user-name:special-char:+": 3, "user-name:special-char:*": 3, "user-name:special-char:(": 3,
-            "user-name:ends-in-nonword": 5, "user-name:extends-published": 20, "user-name:prefix-of-published": 20, "registration:several-calls": 20, "registration:published-name-among-the-new-ones": 10, "registration-after-a-refused-parse": 10, "registered-names-second-parse": 20, "grammar-accessed-before-registration": 10, "crlf-text": 10,
+            "user-name:ends-in-nonword": 5, "user-name:extends-published": 20, "user-name:prefix-of-published": 20, "registration:several-calls": 20, "registration:published-name-among-the-new-ones": 10, "registration-after-a-refused-parse": 10, "registered-names-second-parse": 20, "grammar-accessed-before-registration": 10, "grammar-accessed-between-registrations": 5, "grammar-accessed-after>=2-registrations-and-before-another": 3, "crlf-text": 10,
             "near-miss-rejected": 300, "near-miss:dot-replaced": 3, "near-miss:alias-misspelled": 5, "near-miss:alias-of-an-earlier-file": 5, "near-miss:registered-on-another-instance": 20, "alias-name-extends-model": 20}
 EXHAUSTIVE_NOTE = "all 135 published names x 8 contexts and all ordered prefix pairs are enumerated across the workers in every run"
 ASSUMPTIONS = ["labels next to model names extend them by letters, digits or '_' only (PHSP-x is, by the language's own tokenisation, PHSP with parameter -x)",
@@ -91,7 +91,13 @@ def check_accept(ctx, stmts, user_calls, label, nontrivial=True):
     ctx.case({"text": text, "calls": [list(c) for c in user_calls]}, nontrivial, "enum" if label != "user" else "gen")
     exp = L.expected(stmts)
     gfirst = bool(user_calls) and ctx.rng.random() < 0.35
-    if gfirst:
+    if gfirst and len(user_calls) >= 3 and ctx.rng.random() < 0.7:
+        gfirst = ctx.rng.randint(1, len(user_calls) - 1)     # grammar() between the registrations: k calls before it, the others after
+        ctx.hit("grammar-accessed-between-registrations")
+        if gfirst >= 2:
+            ctx.hit("grammar-accessed-after>=2-registrations-and-before-another")
+        wit["grammar_first"] = gfirst
+    elif gfirst:
         ctx.hit("grammar-accessed-before-registration")
         wit["grammar_first"] = True
     late = bool(user_calls) and not gfirst and ctx.rng.random() < 0.25
@@ -232,7 +238,7 @@ def run(ctx):
         allm = models + um
         if not all(L.label_ok(d, allm) for d in DAUGHTERS + ["B0", "x", "beta", "w"]):
             continue
-        calls = [tuple(um)] if rng.random() < 0.5 or len(um) == 1 else [tuple(um[:1]), tuple(um[1:])]
+        calls = [tuple(um)] if rng.random() < 0.4 or len(um) == 1 else ([tuple(um[:1]), tuple(um[1:])] if len(um) == 2 or rng.random() < 0.4 else [(u,) for u in um])
         if len(calls) > 1:
             ctx.hit("registration:several-calls")
         if rng.random() < 0.3:
